@@ -23,7 +23,8 @@ import (
 
 type Str8 string
 type Bytes8 []byte
-type LexU16s []uint16 // lexical ordering + no duplicates, uint8 prefix
+type LexU16s []uint16        // lexical ordering + no duplicates, uint8 prefix
+type LexMap map[uint8]uint16 // registered with lexical ordering on and array rules that carry only a length bound
 type Custom struct{ A, B uint8 }
 type CustomCode struct{ V uint8 }
 
@@ -85,6 +86,8 @@ func NewAPI() *serix.API {
 	must(api.RegisterTypeSettings(Bytes8{}, serix.TypeSettings{}.WithLengthPrefixType(serix.LengthPrefixTypeAsByte)))
 	must(api.RegisterTypeSettings(LexU16s{}, serix.TypeSettings{}.WithLengthPrefixType(serix.LengthPrefixTypeAsByte).WithLexicalOrdering(true).
 		WithArrayRules(&serix.ArrayRules{ValidationMode: serializer.ArrayValidationModeLexicalOrdering | serializer.ArrayValidationModeNoDuplicates})))
+	must(api.RegisterTypeSettings(LexMap{}, serix.TypeSettings{}.WithLengthPrefixType(serix.LengthPrefixTypeAsByte).WithLexicalOrdering(true).
+		WithArrayRules(&serix.ArrayRules{Max: 9})))
 	must(api.RegisterTypeSettings(CustomCode{}, serix.TypeSettings{}.WithObjectType(uint8(9))))
 	must(api.RegisterTypeSettings(ImplA8{}, serix.TypeSettings{}.WithObjectType(uint8(1))))
 	must(api.RegisterTypeSettings(ImplB8{}, serix.TypeSettings{}.WithObjectType(uint8(2))))
@@ -130,26 +133,42 @@ func vals(t reflect.Type, xs ...any) func() []reflect.Value {
 	return func() []reflect.Value {
 		out := make([]reflect.Value, len(xs))
 		for i, x := range xs {
-			out[i] = reflect.ValueOf(x).Convert(t)
+			out[i] = reflect.ValueOf(x)
+			if out[i].Type() != t {
+				out[i] = out[i].Convert(t)
+			}
 		}
 		return out
 	}
+}
+
+// floatBits returns the exact bit pattern of a float value (going through float64 would quiet a signalling NaN).
+func floatBits(v reflect.Value) uint64 {
+	p := reflect.New(v.Type())
+	p.Elem().Set(v)
+	if v.Kind() == reflect.Float32 {
+		return uint64(*(*uint32)(p.UnsafePointer()))
+	}
+	return *(*uint64)(p.UnsafePointer())
 }
 
 func numNode(name string, t reflect.Type, size int, signed, float bool, xs ...any) *Node {
 	return &Node{Name: name, Type: t, JSONable: true, Vals: vals(t, xs...),
 		Ref: func(v reflect.Value, _ bool) ([]byte, error) {
 			switch {
-			case float && size == 4:
-				return le(4, uint64(math.Float32bits(float32(v.Float())))), nil
 			case float:
-				return le(8, math.Float64bits(v.Float())), nil
+				return le(size, floatBits(v)), nil
 			case signed:
 				return le(size, uint64(v.Int())), nil
 			}
 			return le(size, v.Uint()), nil
 		},
-		Canon: func(v reflect.Value) string { return fmt.Sprint(v.Interface()) },
+		Canon: func(v reflect.Value) string {
+			if float {
+				return fmt.Sprintf("%v/%x", v.Interface(), floatBits(v))
+			}
+			return fmt.Sprint(v.Interface())
+		},
 	}
 }
 
@@ -172,8 +191,8 @@ func Leaves() []*Node {
 		numNode("uint16", reflect.TypeOf(uint16(0)), 2, false, false, uint16(0), uint16(1), uint16(0x0102), uint16(0xffff)),
 		numNode("uint32", reflect.TypeOf(uint32(0)), 4, false, false, uint32(0), uint32(1), uint32(0x01020304), uint32(0xffffffff)),
 		numNode("uint64", reflect.TypeOf(uint64(0)), 8, false, false, uint64(0), uint64(1), uint64(0x0102030405060708), uint64(math.MaxUint64)),
-		numNode("float32", reflect.TypeOf(float32(0)), 4, false, true, float32(0), float32(1.5), float32(-2.25), float32(math.MaxFloat32)),
-		numNode("float64", reflect.TypeOf(float64(0)), 8, false, true, float64(0), float64(1.5), float64(-2.25), float64(math.MaxFloat64)),
+		numNode("float32", reflect.TypeOf(float32(0)), 4, false, true, float32(0), float32(1.5), float32(-2.25), float32(math.MaxFloat32), math.Float32frombits(0x7fc00000), math.Float32frombits(0x7fa00001)),
+		numNode("float64", reflect.TypeOf(float64(0)), 8, false, true, float64(0), float64(1.5), float64(-2.25), float64(math.MaxFloat64), math.Float64frombits(0x7ff8000000000001), math.Float64frombits(0x7ff4000000000001)),
 	)
 	for _, p := range []int{1, 2, 4} {
 		p := p
@@ -546,6 +565,39 @@ func LexU16sNode() *Node {
 		}}
 }
 
+// LexMapNode is the named map type whose registered settings already ask for lexical ordering while its array rules
+// only bound the length; 8 entries make an accidental match of Go's map iteration order with the byte-lexical order
+// unlikely (one rotation out of eight per encode).
+func LexMapNode() *Node {
+	t := reflect.TypeOf(LexMap{})
+	entries := func(v reflect.Value) [][]byte {
+		var e [][]byte
+		it := v.MapRange()
+		for it.Next() {
+			e = append(e, append(le(1, it.Key().Uint()), le(2, it.Value().Uint())...))
+		}
+		sort.Slice(e, func(i, j int) bool { return string(e[i]) < string(e[j]) })
+		return e
+	}
+	big := LexMap{}
+	for i := 0; i < 8; i++ {
+		big[uint8(200-23*i)] = uint16(i * 257)
+	}
+	ten := LexMap{}
+	for i := 0; i < 10; i++ {
+		ten[uint8(i)] = 1
+	}
+	return &Node{Name: "LexMap", Type: t, JSONable: false, Depth: 1,
+		Vals: vals(t, LexMap(nil), LexMap{1: 2}, LexMap{2: 1, 1: 0x0102}, big, ten),
+		Ref: func(v reflect.Value, validate bool) ([]byte, error) {
+			if validate && v.Len() > 9 {
+				return nil, ErrReject
+			}
+			return seqRef(1, entries(v), true), nil
+		},
+		Canon: func(v reflect.Value) string { return fmt.Sprintf("%x", entries(v)) }}
+}
+
 // IfaceNode is an interface-typed node (uint8 or uint32 type codes).
 func IfaceNode(wide bool) *Node {
 	if wide {
@@ -795,7 +847,7 @@ func FieldKinds() []*Node {
 	s8, b8 := str8Node(), bytes8Node()
 	inner := Struct(u8, byName(leaves, "string/p1/0-0"))
 	out := append([]*Node{}, leaves...)
-	out = append(out, s8, b8, LexU16sNode(), AmoIfacesNode(), IfaceNode(false), IfaceNode(true),
+	out = append(out, s8, b8, LexU16sNode(), LexMapNode(), AmoIfacesNode(), IfaceNode(false), IfaceNode(true),
 		SliceOf(u16, 1, 0, 0), SliceOf(u16, 2, 1, 2), SliceOf(s8, 4, 0, 0), SliceOf(byName(leaves, "custom"), 1, 0, 0), SliceOf(inner, 1, 0, 0), SliceOf(IfaceNode(false), 1, 0, 0),
 		ArrayOf(u16, 2, 1),
 		MapOf(u8, u16, 1, 0, 0), MapOf(s8, b8, 2, 0, 0), MapOf(u16, s8, 4, 1, 2),
